@@ -84,68 +84,81 @@ inline constexpr bool is_sut_v = false;
 template <typename C, size_t N, typename Tr>
 inline constexpr bool is_sut_v<etl::basic_inplace_string<C, N, Tr>> = true;
 
+// every string modifier that returns basic_string& returns *this (calls can be chained): checked by address
+inline bool g_selfRef = true;
+
+template <typename S, typename R>
+void self_ref(S& s, R&& r)
+{
+    if constexpr (std::is_same_v<std::remove_cvref_t<R>, S>) {
+        if (static_cast<void const*>(&r) != static_cast<void const*>(&s)) {
+            g_selfRef = false;
+        }
+    }
+}
+
 template <typename Str, typename View>
 auto apply_mut(int kind, int var, Str& s, Args<Str, View> const& A) -> long
 {
     switch (kind) {
     case K_SET:
         switch (var) {
-        case 0: s = A.cstr; break;
-        case 1: s.assign(A.cstr); break;
-        case 2: s.assign(A.ptr, A.len); break;
-        case 3: s.assign(A.count, A.ch); break;
-        case 4: s.assign(A.ptr, A.ptr + A.len); break;
-        case 5: s = A.view; break;
-        case 6: s.assign(A.view); break;
-        case 7: s = A.ch; break;
-        default: s.assign(A.view, A.pos2, A.count2); break;
+        case 0: self_ref(s, s = A.cstr); break;
+        case 1: self_ref(s, s.assign(A.cstr)); break;
+        case 2: self_ref(s, s.assign(A.ptr, A.len)); break;
+        case 3: self_ref(s, s.assign(A.count, A.ch)); break;
+        case 4: self_ref(s, s.assign(A.ptr, A.ptr + A.len)); break;
+        case 5: self_ref(s, s = A.view); break;
+        case 6: self_ref(s, s.assign(A.view)); break;
+        case 7: self_ref(s, s = A.ch); break;
+        default: self_ref(s, s.assign(A.view, A.pos2, A.count2)); break;
         }
         return -1;
     case K_SETFROM:
         switch (var) {
-        case 0: s = *A.other; break;
-        case 1: s.assign(*A.other); break;
-        case 2: s.assign(*A.other, A.pos2, A.count2); break;
-        default: s.assign(*A.other, A.pos2); break;
+        case 0: self_ref(s, s = *A.other); break;
+        case 1: self_ref(s, s.assign(*A.other)); break;
+        case 2: self_ref(s, s.assign(*A.other, A.pos2, A.count2)); break;
+        default: self_ref(s, s.assign(*A.other, A.pos2)); break;
         }
         return -1;
     case K_APPEND:
         switch (var) {
-        case 0: s.append(A.count, A.ch); break;
-        case 1: s.append(A.cstr); break;
-        case 2: s.append(A.ptr, A.len); break;
-        case 3: s.append(A.view); break;
-        case 4: s.append(A.view, A.pos2, A.count2); break;
-        case 5: s += A.ch; break;
-        case 6: s += A.cstr; break;
-        case 7: s += A.view; break;
-        case 8: s.append(A.ptr, A.ptr + A.len); break;
-        case 9: s.append(*A.other); break;
-        case 10: s.append(*A.other, A.pos2, A.count2); break;
-        case 11: s += *A.other; break;
+        case 0: self_ref(s, s.append(A.count, A.ch)); break;
+        case 1: self_ref(s, s.append(A.cstr)); break;
+        case 2: self_ref(s, s.append(A.ptr, A.len)); break;
+        case 3: self_ref(s, s.append(A.view)); break;
+        case 4: self_ref(s, s.append(A.view, A.pos2, A.count2)); break;
+        case 5: self_ref(s, s += A.ch); break;
+        case 6: self_ref(s, s += A.cstr); break;
+        case 7: self_ref(s, s += A.view); break;
+        case 8: self_ref(s, s.append(A.ptr, A.ptr + A.len)); break;
+        case 9: self_ref(s, s.append(*A.other)); break;
+        case 10: self_ref(s, s.append(*A.other, A.pos2, A.count2)); break;
+        case 11: self_ref(s, s += *A.other); break;
         case 12: s.push_back(A.ch); break;
-        case 13: s.append(A.view, A.pos2); break;
-        default: s.append(*A.other, A.pos2); break;
+        case 13: self_ref(s, s.append(A.view, A.pos2)); break;
+        default: self_ref(s, s.append(*A.other, A.pos2)); break;
         }
         return -1;
     case K_INSERT:
         switch (var) {
-        case 0: s.insert(A.pos, A.count, A.ch); break;
-        case 1: s.insert(A.pos, A.cstr); break;
-        case 2: s.insert(A.pos, A.ptr, A.len); break;
-        case 3: s.insert(A.pos, *A.other); break;
-        case 4: s.insert(A.pos, *A.other, A.pos2, A.count2); break;
-        case 5: s.insert(A.pos, A.view); break;
-        case 6: s.insert(A.pos, A.view, A.pos2, A.count2); break;
-        case 7: s.insert(A.pos, *A.other, A.pos2); break;
-        default: s.insert(A.pos, A.view, A.pos2); break;
+        case 0: self_ref(s, s.insert(A.pos, A.count, A.ch)); break;
+        case 1: self_ref(s, s.insert(A.pos, A.cstr)); break;
+        case 2: self_ref(s, s.insert(A.pos, A.ptr, A.len)); break;
+        case 3: self_ref(s, s.insert(A.pos, *A.other)); break;
+        case 4: self_ref(s, s.insert(A.pos, *A.other, A.pos2, A.count2)); break;
+        case 5: self_ref(s, s.insert(A.pos, A.view)); break;
+        case 6: self_ref(s, s.insert(A.pos, A.view, A.pos2, A.count2)); break;
+        case 7: self_ref(s, s.insert(A.pos, *A.other, A.pos2)); break;
+        default: self_ref(s, s.insert(A.pos, A.view, A.pos2)); break;
         }
         return -1;
     case K_ERASE:
         switch (var) {
-        case 0: s.erase(); return -1;
-        case 1: s.erase(A.pos); return -1;
-        case 2: s.erase(A.pos, A.count); return -1;
+        case 0: self_ref(s, s.erase()); return -1;
+        case 1: self_ref(s, s.erase(A.pos)); return -1;
+        case 2: self_ref(s, s.erase(A.pos, A.count)); return -1;
         case 3: return static_cast<long>(s.erase(s.begin() + static_cast<long>(A.pos)) - s.begin());
         default:
             return static_cast<long>(
@@ -156,15 +169,15 @@ auto apply_mut(int kind, int var, Str& s, Args<Str, View> const& A) -> long
         auto f = s.begin() + static_cast<long>(A.pos);
         auto l = s.begin() + static_cast<long>(A.pos + A.count);
         switch (var) {
-        case 0: s.replace(A.pos, A.count, *A.other); break;
-        case 1: s.replace(f, l, *A.other); break;
-        case 2: s.replace(A.pos, A.count, *A.other, A.pos2, A.count2); break;
-        case 3: s.replace(A.pos, A.count, A.ptr, A.len); break;
-        case 4: s.replace(f, l, A.ptr, A.len); break;
-        case 5: s.replace(A.pos, A.count, A.cstr); break;
-        case 6: s.replace(f, l, A.cstr); break;
-        case 7: s.replace(f, l, A.count2, A.ch); break;
-        default: s.replace(A.pos, A.count, *A.other, A.pos2); break;
+        case 0: self_ref(s, s.replace(A.pos, A.count, *A.other)); break;
+        case 1: self_ref(s, s.replace(f, l, *A.other)); break;
+        case 2: self_ref(s, s.replace(A.pos, A.count, *A.other, A.pos2, A.count2)); break;
+        case 3: self_ref(s, s.replace(A.pos, A.count, A.ptr, A.len)); break;
+        case 4: self_ref(s, s.replace(f, l, A.ptr, A.len)); break;
+        case 5: self_ref(s, s.replace(A.pos, A.count, A.cstr)); break;
+        case 6: self_ref(s, s.replace(f, l, A.cstr)); break;
+        case 7: self_ref(s, s.replace(f, l, A.count2, A.ch)); break;
+        default: self_ref(s, s.replace(A.pos, A.count, *A.other, A.pos2)); break;
         }
         return -1;
     }
@@ -1116,9 +1129,14 @@ struct StrDriver {
 
         // ---- valid: execute on the SUT
         long gotRet = -1;
+        g_selfRef   = true;
         bool ok     = call(a, false, false, [&] { gotRet = apply_mut(kind, var, v, B.sa); });
         if (!ok) {
             return;
+        }
+        if (!g_selfRef) {
+            ctx.violation("C04", "diff:returned-reference", "a modifier that returns basic_inplace_string& did not return the string itself");
+            g_selfRef = true;
         }
         if (gotRet != wantRet) {
             ctx.violation("C04", "diff:returned-value", "returned " + std::to_string(gotRet) + " want " + std::to_string(wantRet));
